@@ -73,6 +73,9 @@ func c09Routes(proto string) []routeSpec {
 		{Key: "dead", Cluster: "cl-$P-dead", Extra: jmap{"timeout": "300ms"}},
 		{Key: "free", Cluster: "cl-$P", Extra: jmap{"timeout": "300ms"}},
 		{Key: "rq", Cluster: "cl-$P-one", Extra: jmap{"timeout": "300ms"}},
+		// capacity tests hold requests for 2.5 s
+		{Key: "cap", Cluster: "cl-$P-lim", Extra: jmap{"timeout": "10s"}},
+		{Key: "qcap", Cluster: "cl-$P-one", Extra: jmap{"timeout": "10s"}},
 	}
 }
 
@@ -288,6 +291,16 @@ func c09Quiescent(c *lab.Ctx, e *engine, proto string, when string) {
 				bad = append(bad, fmt.Sprintf("idle-vs-total|pool %s %s: nothing is in flight but only %d of its %d connections are idle (the rest is leased to nobody)", p, addr, idle, total))
 			}
 		})
+		// the clusters' own counters of requests in flight (what max_requests / max_pending_requests / max_retries are judged against)
+		for _, suffix := range []string{"", "-lim", "-one", "-empty", "-dead"} {
+			name := "cl-" + proto + suffix
+			bb := breakerBooks(name)
+			for _, res := range []string{"requests", "pending_requests", "retries"} {
+				if v := bb[res]; v != 0 {
+					bad = append(bad, fmt.Sprintf("breaker-%s|cluster %s: nothing is in flight but its %s counter reads %d (capacity taken by finished, failed or refused requests was not given back)", res, name, res, v))
+				}
+			}
+		}
 		return bad
 	}
 	bad := check()
@@ -302,46 +315,64 @@ func c09Quiescent(c *lab.Ctx, e *engine, proto string, when string) {
 	}
 }
 
-// c09Capacity: max_connections = 3 on cl-<proto>-lim.
+// c09Capacity: max_connections = 3 on cl-<proto>-lim (route cap), max_requests = 2 on cl-<proto>-one (route qcap).
 func c09Capacity(c *lab.Ctx, e *engine, proto string) {
-	c.Case("c09 capacity %s", proto)
+	c09CapacityOn(c, e, proto, "cap", 3, "max_connections")
+	c09CapacityOn(c, e, proto, "qcap", 2, "max_requests")
+}
+
+func c09CapacityOn(c *lab.Ctx, e *engine, proto, key string, limit int, what string) {
+	c.Case("c09 capacity %s %s", proto, what)
 	_, _ = e.quiesce(4 * time.Second)
 	out := make(chan clEvent, 4)
 	var cls []client
 	toks := []string{}
-	for i := 0; i < 3; i++ {
-		cl := e.newClient(proto, fmt.Sprintf("%s-cap-%d", proto, i))
+	for i := 0; i < limit; i++ {
+		cl := e.newClient(proto, fmt.Sprintf("%s-%s-%d", proto, key, i))
 		cls = append(cls, cl)
-		tok := fmt.Sprintf("cap-%s-%d-%d", proto, c.Batch, i)
+		tok := fmt.Sprintf("%s-%s-%d-%d", key, proto, c.Batch, i)
 		toks = append(toks, tok)
 		go func(cl client, tok string) {
-			r := reqFor(proto, "pp", tok, "d200:ok")
+			r := reqFor(proto, key, tok, "d2500:ok") // they hold their connections for 2.5 s
 			out <- cl.do(r)
 		}(cl, tok)
 	}
+	// event-driven: wait until all three are at the upstream (or one of them has already come back); the bound is a watchdog
 	seen := 0
-	for w := 0; w < 60; w++ {
+	var early []clEvent
+	t0 := time.Now()
+	for seen < limit && len(early) == 0 && time.Since(t0) < 20*time.Second {
 		seen = 0
 		for _, t := range toks {
 			if len(e.log.upsFor(t)) > 0 {
 				seen++
 			}
 		}
-		if seen == 3 {
-			break
+		select {
+		case ev := <-out:
+			early = append(early, ev)
+		case <-time.After(5 * time.Millisecond):
 		}
-		time.Sleep(5 * time.Millisecond)
 	}
-	over := e.newClient(proto, proto+"-cap-over")
+	allHeld := seen == limit && len(early) == 0
+	over := e.newClient(proto, proto+"-"+key+"-over")
 	var evOver clEvent
-	if seen == 3 {
-		evOver = over.do(reqFor(proto, "pp", fmt.Sprintf("cap-%s-%d-over", proto, c.Batch), "ok"))
+	overJudged := false
+	if allHeld {
+		evOver = over.do(reqFor(proto, key, fmt.Sprintf("%s-%s-%d-over", key, proto, c.Batch), "ok"))
+		// only meaningful if it came back while the three were certainly still held (abstain otherwise, never convict on time)
+		overJudged = time.Since(t0) < 2*time.Second
 	}
-	okN := 0
-	for range cls {
-		ev := <-out
+	okN, refused := 0, 0
+	evs := append([]clEvent{}, early...)
+	for len(evs) < len(cls) {
+		evs = append(evs, <-out)
+	}
+	for _, ev := range evs {
 		if ev.Kind == "response" && ev.BodyToken == ev.Token {
 			okN++
+		} else if ev.Kind == "response" {
+			refused++ // answered by the proxy itself
 		}
 	}
 	c.Eval(1)
@@ -351,22 +382,24 @@ func c09Capacity(c *lab.Ctx, e *engine, proto string) {
 			conns[fmt.Sprintf("%s#%d", u.Upstream, u.Conn)] = true
 		}
 	}
-	if seen < 3 || okN < 3 {
-		c.Violation("freed-capacity-available-again", "C09/capacity-lost/"+proto,
-			fmt.Sprintf("%s: max_connections=3 and nothing in flight, yet only %d of 3 concurrent requests reached the upstream and %d were answered (capacity consumed by earlier failed / refused / one-way requests was not given back)", proto, seen, okN),
-			map[string]interface{}{"reached_upstream": seen, "answered": okN})
-	} else if len(conns) != 3 {
-		c.Violation("exclusive-lease", "C09/capacity/shared-connection/"+proto, fmt.Sprintf("%s: 3 concurrent requests used %d connections", proto, len(conns)), nil)
+	if refused > 0 {
+		c.Violation("freed-capacity-available-again", "C09/capacity-lost/"+what+"/"+proto,
+			fmt.Sprintf("%s: %s=%d and nothing in flight, yet %d of %d concurrent requests were refused by the proxy (%d reached the upstream, %d answered): capacity consumed by earlier failed / refused / one-way requests was not given back", proto, what, limit, refused, limit, seen, okN),
+			map[string]interface{}{"reached_upstream": seen, "answered": okN, "refused": refused})
+	} else if okN < limit {
+		c.Inconclusive(fmt.Sprintf("capacity test %s %s: %d of %d holders answered, none refused", proto, what, okN, limit))
+	} else if allHeld && what == "max_connections" && len(conns) != limit {
+		c.Violation("exclusive-lease", "C09/capacity/shared-connection/"+proto, fmt.Sprintf("%s: %d concurrent requests used %d connections", proto, limit, len(conns)), nil)
 	}
-	if seen == 3 && len(e.log.upsFor(fmt.Sprintf("cap-%s-%d-over", proto, c.Batch))) > 0 && evOver.Kind == "response" && evOver.BodyToken == evOver.Token {
-		c.Violation("limit-respected", "C09/capacity/max_connections-exceeded/"+proto,
-			fmt.Sprintf("%s: a 4th concurrent request was served while 3 (= max_connections) were in flight", proto), nil)
+	if overJudged && len(e.log.upsFor(fmt.Sprintf("%s-%s-%d-over", key, proto, c.Batch))) > 0 && evOver.Kind == "response" && evOver.BodyToken == evOver.Token {
+		c.Violation("limit-respected", "C09/capacity/"+what+"-exceeded/"+proto,
+			fmt.Sprintf("%s: one more concurrent request was served while %d (= %s) were in flight", proto, limit, what), nil)
 	}
 	over.close()
 	for _, cl := range cls {
 		cl.close()
 	}
-	c.Distinct("capacity|" + proto)
+	c.Distinct("capacity|" + what + "|" + proto)
 }
 
 func c09History(e *engine, evs []upEvent, i int) []string {
